@@ -65,6 +65,10 @@ func (c PolicyCfg) Class() string {
 	return fmt.Sprintf("sk=%v/%s/%s ik=%v/%s/%s sh=%v se=%v/%s", c.CacheSK, c.SKPolicy, capc(c.SKCap), c.CacheIK, c.IKPolicy, capc(c.IKCap), c.SharedIK, c.SessionCache, c.SessPolicy)
 }
 
+// SharedIKCache reports whether, by the documented policy, the sessions of a factory share one
+// intermediate-key cache: "SharedIntermediateKeyCache ... is ignored if CacheIntermediateKeys is disabled".
+func (c PolicyCfg) SharedIKCache() bool { return c.CacheIK && c.SharedIK }
+
 // Build returns the SDK policy object.
 func (c PolicyCfg) Build() *appencryption.CryptoPolicy {
 	p := appencryption.NewCryptoPolicy()
